@@ -744,8 +744,10 @@ func (s *Server) runElection(id string, elecID *spb.Uint128) (*spb.ModifyRespons
 		return nil, status.Newf(codes.Internal, "cannot store election ID %s for client %s", elecID, id).Err()
 	}
 
-	s.elecMu.RLock()
-	defer s.elecMu.RUnlock()
+	// The comparison with, and update of, the current election ID must be
+	// atomic with respect to other sessions' elections - take the write lock.
+	s.elecMu.Lock()
+	defer s.elecMu.Unlock()
 	nm, _, err := isNewMaster(elecID, s.curElecID)
 	if err != nil {
 		return nil, err
